@@ -185,13 +185,13 @@ PROPS = {
                      "indices of non-skipped variants are pairwise distinct (the codec derive rejects anything else at compile time)"],
     ),
     'C20': dict(
-        custom='neg', streams=[], classes='bld,attr', n=dict(quick=160, thorough=5000), filter=only('C20:'),
+        custom='neg', streams=[], classes='bld,attr', n=dict(quick=480, thorough=6000), filter=only('C20:'),
         rule="generated programs, each its own cargo bin target (compiled on its own): (bld) builder chains in MetaForm and PortableForm - a valid chain (type-level setters around .path, composite with unit/named/unnamed field builders with name/ty/type_name/docs in any order, variants with index/discriminant/docs/fields) or ONE mutation of it: path dropped or repeated, terminal dropped/moved/repeated, field kind swapped (named<->unnamed, ->unit), ty dropped or repeated, name added/dropped/repeated, index dropped or repeated; (attr) #[derive(TypeInfo)] on a struct with 0-2 parameters (inline TypeInfo bounds, so only the derive can reject) or a union, with attribute lists drawn from bounds / skip_type_params / capture_docs (valid values in several spellings, invalid ones) / crate / replace_segment / unknown keys, duplicated inside one attribute or across two, and bounds leaving a non-skipped parameter out (also after a skipped one). rustc's verdict per program vs Typestate.accepts / deriveAccepts. Non-trivial: a rejected program.",
         trusted_base=COMMON_TB + ["rustc is the judge; the typestate automaton and the attribute validator are read off src/build.rs and derive/src/attr.rs and tied only by these verdicts"],
         assumptions=["TypeBuilder::<_, PathAssigned>::default() compiles and panics at run time (no ill-formed value results): outside the negative grammar, see DESIGN.md §6"],
     ),
     'C13': dict(
-        custom='neg', streams=[], classes='gen', n=dict(quick=120, thorough=4000), filter=only('C13:'),
+        custom='neg', streams=[], classes='gen', n=dict(quick=240, thorough=4000), filter=only('C13:'),
         rule="generated generic declarations (struct or enum, 1-2 type parameters used directly, in Vec/Option/tuple/Box/BTreeMap, in PhantomData, through an associated type T::A, in self-referential positions, in helper generic types with and without TypeInfo; optional lifetime, const parameter, default, where-clause; skip_type_params, #[codec(skip)], #[codec(compact)], explicit bounds) each with ONE instantiation drawn from types with type info (u8, u32, String, Wrapper<u8>, Option<bool>, Good), without (NoInfo, Vec<NoInfo>), and trait impls whose associated type has / lacks type info; each program (declaration + `meta_type::<S<..>>()`) compiled on its own. Oracle: if the non-skipped parameters and the encoded members' types have type info (Spec.usableSpec) the program must compile. Correspondence: rustc's verdict = all predicates of the modelled where-clause hold (Bounds.usable).",
         trusted_base=COMMON_TB + ["rustc's trait solver is the judge; Bounds.hasInfo models which helper/built-in types implement TypeInfo"],
         assumptions=["self references are written with the bare identifier except in the flagged qualified-self cases (KNOWN-FINDING)"],
